@@ -111,7 +111,9 @@ def h_pull_after_abort(ctx, mods, shape):
     op2.check(ctx, w, st, o2, exp, 'pull after an aborted pull: ')
 
 
-HARNESSES = {'pull': h_pull, 'pull_after_abort': h_pull_after_abort}
+from .c06 import h_async, h_threads
+
+HARNESSES = {'pull': h_pull, 'pull_after_abort': h_pull_after_abort, 'async': h_async, 'threads': h_threads}
 
 
 def shapes(tier, seed):
@@ -152,4 +154,8 @@ def shapes(tier, seed):
         if not q:
             out.append({'h': 'pull', 'impl': impl, 'recs': [], 'big': [1572864, 65536], 'wrte_size': 4096})
             out.append({'h': 'pull', 'impl': impl, 'recs': [], 'big': [1572864, 65536], 'wrte_size': 1 << 20, 'maxdata': 1 << 20})
+    # a pull whose reply arrives in several packets while another stream is read concurrently (K1 timeouts are C06's)
+    ss = ['streaming_shell', {'lens': [1]}]
+    out.append({'h': 'async', 'ops': [['pull', {'recs': [3, 2]}], ss], 'wrte_size': 7, 'ignore_k1': True, 'max_paths': 200000})
+    out.append({'h': 'threads', 'ops': [['pull', {'recs': [2]}], ss], 'wrte_size': 7, 'preempt': 1, 'yields': False, 'ignore_k1': True, 'max_paths': 200000})
     return out
